@@ -236,7 +236,7 @@ def run(rng, res, tier, shard, nshards):
             case = {'kind': 'desc', 'desc': d, 'attackers': case['attackers'], 'analyse': True}
         f = check_desc(case, res)
         res.case(digest(case) if (case.get('analyse') or nontrivial(case['desc']['nodes'])) else None)
-        if res.evaluations % 997 == 13:
+        if len(res.samples) < 3 and nontrivial(case['desc']['nodes']):
             res.sample({'labels': [(nd['type'], nd.get('is_viable'), nd.get('is_necessary')) for nd in case['desc']['nodes']][:14], 'edges': case['desc']['edges'][:16], 'attackers': case['attackers']})
         report(f, case)
     for _ in range(GENERATED[tier] // nshards):
